@@ -1119,6 +1119,126 @@ Proof.
   - intros a Hlt. rewrite read_app_lt by len. apply read_app_lt. exact Hlt.
 Qed.
 
+(** ** A block rendered through extends (copy with block_scope) *)
+
+(** In the fresh context of a block (nothing assigned in it yet) a name
+    resolves exactly as in the page at the block tag, with the [block] drop
+    namespace pushed in front. *)
+Theorem block_copy_lookup w gl (st : state) a (ns : dict) k : Rg w gl st a ->
+  st_lookup (ctx_copy_block st ns) k =
+  spec_lookup_g gl {| a_blocks := ns :: a_blocks a; a_locals := a_locals a; a_counters := a_counters a |} k.
+Proof.
+  intro HR. pose proof (Rg_lookup _ _ _ _ k HR) as HL. pose proof (Rg_scope_wf _ _ _ _ HR) as HW.
+  destruct HR as (bl & Hsc & Hb & Hl & Hc & Hf & Hg & Hm & H4 & Hlc & Hcl & Hbl & Hrl & Hrm).
+  pose proof Hbl as Hbl'. rewrite Forall_forall in Hbl'.
+  unfold ctx_copy_block, alloc, st_lookup, cm_getitem.
+  cbn [store_of scope locals_a counters_a globals_r root_r].
+  assert (Hen : firstn (length (scope st) - 4) (scope st) = map RDict bl).
+  { rewrite Hsc, app_length, map_length. simpl.
+    replace (length bl + 4 - 4) with (length (map RDict bl)) by (rewrite map_length; lia).
+    rewrite firstn_app, Nat.sub_diag, firstn_all. simpl. apply app_nil_r. }
+  rewrite Hen.
+  match goal with |- context [mget ?S (RChain (RDict (length (store_of st)) :: _)) k] => set (s2 := S) end.
+  assert (Hold : forall x, x < length (store_of st) -> read s2 x = read (store_of st) x).
+  { intros x Hx. unfold s2. rewrite !read_app_lt by len. reflexivity. }
+  assert (Hpage : mget s2 (RChain (scope st)) k = spec_lookup_g gl a k).
+  { rewrite <- HL. unfold st_lookup, cm_getitem. apply mget_frame. intros x Hx. apply Hold. apply HW. exact Hx. }
+  rewrite mget_chain. cbn [map]. rewrite map_app, map_map. cbn [map].
+  change (mget s2 (RDict (length (store_of st))) k) with (assoc k (read s2 (length (store_of st)))).
+  change (mget s2 (RDict (length (store_of st ++ [ns]))) k) with (assoc k (read s2 (length (store_of st ++ [ns])))).
+  change (mget s2 (RDict (counters_a st)) k) with (assoc k (read s2 (counters_a st))).
+  assert (Ens : read s2 (length (store_of st)) = ns).
+  { unfold s2. rewrite read_app_lt by len. apply read_app_new. }
+  assert (Elo : read s2 (length (store_of st ++ [ns])) = []) by (unfold s2; apply read_app_new).
+  rewrite Ens, Elo, (Hold _ Hcl), Hc.
+  replace (map (fun x => mget s2 (RDict x) k) bl) with (map (assoc k) (a_blocks a)).
+  2:{ rewrite <- Hb, map_map. apply map_ext_in. intros b Hin. simpl. rewrite Hold; [reflexivity|].
+      specialize (Hbl' b Hin). lia. }
+  rewrite (mget_chain s2 [RDict (length (store_of st)); RChain (scope st)]). cbn [map].
+  change (mget s2 (RDict (length (store_of st))) k) with (assoc k (read s2 (length (store_of st)))).
+  rewrite Ens, Hpage.
+  unfold spec_lookup_g. cbn [a_blocks a_locals a_counters map].
+  simpl first_some at 1.
+  destruct (assoc k ns) as [v|]; [reflexivity|].
+  cbn [first_some app]. rewrite !first_some_app.
+  destruct (first_some (map (assoc k) (a_blocks a))) as [v|]; [reflexivity|].
+  simpl. destruct (assoc k (a_locals a)); [reflexivity|]. destruct (gl k); [reflexivity|].
+  destruct (builtin_get k); [reflexivity|]. destruct (assoc k (a_counters a)); reflexivity.
+Qed.
+
+(** A variable assigned in the block does NOT shadow the bindings that enclose
+    the block in the page (the block drop, for / tablerow / with namespaces):
+    it comes right after them and before the page's own locals. *)
+Theorem block_assign_lookup w gl (st : state) a (ns : dict) k v k' : Rg w gl st a ->
+  st_lookup (st_assign (ctx_copy_block st ns) k v) k' =
+  match first_some (map (assoc k') (ns :: a_blocks a)) with
+  | Some x => Some x
+  | None => if str_eqb k' k then Some v else spec_lookup_g gl a k'
+  end.
+Proof.
+  intro HR. destruct (str_eqb k' k) eqn:E.
+  - apply str_eqb_eq in E. subst k'.
+    pose proof (block_copy_lookup w gl st a ns k HR) as HB.
+    pose proof (Rg_scope_wf _ _ _ _ HR) as HW.
+    destruct HR as (bl & Hsc & Hb & Hl & Hc & Hf & Hg & Hm & H4 & Hlc & Hcl & Hbl & Hrl & Hrm).
+    pose proof Hbl as Hbl'. rewrite Forall_forall in Hbl'.
+    unfold st_assign, ctx_copy_block, alloc, st_lookup, cm_getitem, with_store.
+    cbn [store_of scope locals_a counters_a globals_r root_r].
+    assert (Hen : firstn (length (scope st) - 4) (scope st) = map RDict bl).
+    { rewrite Hsc, app_length, map_length. simpl.
+      replace (length bl + 4 - 4) with (length (map RDict bl)) by (rewrite map_length; lia).
+      rewrite firstn_app, Nat.sub_diag, firstn_all. simpl. apply app_nil_r. }
+    rewrite Hen.
+    match goal with |- context [mget ?S (RChain (RDict (length (store_of st)) :: _)) k] => set (s3 := S) end.
+    assert (Hold : forall x, x < length (store_of st) -> read s3 x = read (store_of st) x).
+    { intros x Hx. unfold s3. rewrite read_write_other by len.
+      rewrite !read_app_lt by len. reflexivity. }
+    rewrite mget_chain. cbn [map]. rewrite map_app, map_map. cbn [map].
+    match goal with |- context [mget s3 (RDict ?L) k :: mget s3 (RChain _) k :: _] => set (la := L) end.
+    change (mget s3 (RDict (length (store_of st))) k) with (assoc k (read s3 (length (store_of st)))).
+    change (mget s3 (RDict la) k) with (assoc k (read s3 la)).
+    assert (Ens : read s3 (length (store_of st)) = ns).
+    { unfold s3. rewrite read_write_other by len. rewrite read_app_lt by len. apply read_app_new. }
+    assert (Elo : assoc k (read s3 la) = Some v).
+    { unfold s3, la. rewrite read_write_same by len. apply assoc_dict_set_same. }
+    rewrite Ens, Elo.
+    replace (map (fun x => mget s3 (RDict x) k) bl) with (map (assoc k) (a_blocks a)).
+    2:{ rewrite <- Hb, map_map. apply map_ext_in. intros b Hin. simpl. rewrite Hold; [reflexivity|].
+        specialize (Hbl' b Hin). lia. }
+    cbn [map first_some]. destruct (assoc k ns) as [x|]; [reflexivity|].
+    cbn [first_some app]. rewrite first_some_app.
+    destruct (first_some (map (assoc k) (a_blocks a))); reflexivity.
+  - apply str_eqb_neq in E.
+    destruct (assign_touches_only_locals (ctx_copy_block st ns) k v) as (_ & _ & _ & _ & _ & _ & Hother).
+    rewrite (Hother k' E), (block_copy_lookup w gl st a ns k' HR).
+    unfold spec_lookup_g. cbn [a_blocks a_locals a_counters].
+    cbn [map]. rewrite !first_some_app. cbn [first_some].
+    destruct (assoc k' ns) as [x|]; [reflexivity|].
+    try rewrite first_some_app.
+    destruct (first_some (map (assoc k') (a_blocks a))); reflexivity.
+Qed.
+
+Theorem block_lookup (L : layers) (ns : dict) k :
+  NoDup (keys (w_tg (l_world L))) ->
+  st_lookup (ctx_copy_block (build L) ns) k =
+  spec_lookup (l_world L)
+    {| a_blocks := ns :: l_blocks L; a_locals := l_locals L; a_counters := l_counters L |} k.
+Proof.
+  intro ND. rewrite (block_copy_lookup _ _ _ _ ns k (build_Rg L ND)), spec_lookup_flat. reflexivity.
+Qed.
+
+Theorem block_assign_does_not_shadow_enclosing (L : layers) (ns : dict) k v k' :
+  NoDup (keys (w_tg (l_world L))) ->
+  st_lookup (st_assign (ctx_copy_block (build L) ns) k v) k' =
+  match first_some (map (assoc k') (ns :: l_blocks L)) with
+  | Some x => Some x
+  | None => if str_eqb k' k then Some v else st_lookup (build L) k'
+  end.
+Proof.
+  intro ND. rewrite (block_assign_lookup _ _ _ _ ns k v k' (build_Rg L ND)).
+  rewrite (Rg_lookup _ _ _ _ k' (build_Rg L ND)). reflexivity.
+Qed.
+
 End Proofs.
 
 (** * Which layer wins does not depend on the values *)
